@@ -21,7 +21,7 @@ META = {
 
 def queries(tier):
     qs = []
-    kw = dict(unwind=10, cap_s=600, mem_gb=12, backend="cadical", prelude=["rbtree", "nostring"], no_pointer_overflow=True)
+    kw = dict(unwind=14, cap_s=600, mem_gb=12, backend="cadical", ll2c_cap=16, memcap=16, prelude=["rbtree", "nostring"], no_pointer_overflow=True)
     for n in (1, 2, 3):
         for loop in (1, 0):
             if tier == "quick" and n == 3:
